@@ -8,7 +8,19 @@ def build(tier, seed):
     qs = []
     for name, kw in wc.standard_shapes(tier, "wf"):
         qs.append(wc.wq(name, witness=("_t4_ri2_bs40" in name or "_t0_" in name), **kw))
-    # separator function alone: every start < limit with lengths <= 3 (4 in the thorough tier)
+    # separator function alone: every start < limit, all byte values, lengths 0..4 (5 in the thorough tier)
+    from vdriver import Query
+    lmax = 4 if tier == "quick" else 5
+    for sl in range(0, lmax + 1):
+        for ll in range(0, lmax + 1):
+            if ll == 0:
+                continue    # nothing sorts below the empty limit
+            qs.append(Query("separator_s%d_l%d" % (sl, ll), harness="c09_separator.c", entry="h_separator", defines={"SL": sl, "LL": ll},
+                            unwind=lmax + 4, unwindset={"ubuf_reserve.0": 2}, timeout=600, mem_gb=8, witness=(sl == 2 and ll == 2),
+                            sample={"start_len": sl, "limit_len": ll, "bytes": "all"}))
+    # the 16-bit carry branch of the separator inside a real cut: last key k 02 ff .., next key k 03 00 ..
+    qs.append(wc.wq("wf_sep_carry", [4, 4, 1], [0, 1, 0], [1, 1, 1], ri=2, bs=30, witness=False,
+                    special={(0, 1): 0x02, (0, 2): 0xff, (1, 1): 0x03, (1, 2): 0x00}))
     meta = {
         "functions": wc.FUNCS, "units": ["mtbl/writer.c", "mtbl/block_builder.c"] + wc.UNITS,
         "bounds": "tables of <= 6 entries, keys <= 3 bytes (incl. empty key), values <= 30 bytes, restart interval 1..16, block size 24..200 (0..3 block cuts), foreign prefix 0..17 bytes, compression ids 0..5 with default / explicit level through a ghost identity codec; for each shape every value byte, every key byte that does not decide the order of two adjacent keys, and every CRC value is a solver variable",
